@@ -157,6 +157,37 @@ def probe():
     t = threading.Thread(target=tb); t.start()
     a(1); t.join()
     return res["b"]
+
+def overlap_probe():
+    """two validation blocks on two threads that overlap without nesting (A starts, B starts, A ends, B ends): at the quiescent
+    point afterwards the switch must be as it was, and contracts are enforced again"""
+    from deal._state import state
+    ev = {n: threading.Event() for n in ("g_in_body", "g_may_finish_body", "g_in_post", "f_finished")}
+    def pre_f(x):
+        ev["g_may_finish_body"].set(); ev["g_in_post"].wait(5); return x > 0
+    @deal.pre(pre_f)
+    def f(x): return x * 2
+    def post_g(result):
+        ev["g_in_post"].set(); ev["f_finished"].wait(5); return result == 1
+    @deal.post(post_g)
+    def g():
+        ev["g_in_body"].set(); ev["g_may_finish_body"].wait(5); return 1
+    @deal.pre(lambda x: x > 0)
+    def later(x): return x
+    before = state.debug
+    log = {}
+    def run(name, fn, *a):
+        try: log[name] = ("value", fn(*a))
+        except BaseException as e: log[name] = ("raised", type(e).__name__)
+    tg = threading.Thread(target=run, args=("g", g)); tf = threading.Thread(target=run, args=("f", f, 3))
+    tg.start(); ev["g_in_body"].wait(5); tf.start(); tf.join(5); ev["f_finished"].set(); tg.join(5)
+    after = state.debug
+    try:
+        later(-1); enforced = False
+    except deal.PreContractError:
+        enforced = True
+    state.debug = before
+    return {"results": [log.get("f"), log.get("g")], "switch_before": before, "switch_after": after, "enforced_afterwards": enforced}
 '''
 
 
@@ -167,6 +198,11 @@ def thread_probe(ctx, fr):
     if r != 'rejected':
         fr.violations.append({'scenario': {'family': 'thread-probe'}, 'impl': r, 'signature': 'thread_debug_window',
                               'what': f'a violating call made by another thread while a validator is running was not rejected: {r}'})
+    r2 = impl.run_impl('pyexec.py', {'src': THREAD_SRC, 'calls': [['overlap_probe', []]]})[0]
+    fr.evaluations += 1; fr.samples.append({'family': 'thread-overlap-probe', 'result': r2})
+    if not (isinstance(r2, dict) and r2.get('switch_after') == r2.get('switch_before') and r2.get('enforced_afterwards') and r2.get('results') == [['value', 6], ['value', 1]]):
+        fr.violations.append({'scenario': {'family': 'thread-overlap-probe'}, 'impl': r2, 'signature': None,
+                              'what': f'after two overlapping (not nested) validation blocks on two threads the switch / enforcement is not as it was: {r2}'})
 
 
 def search(ctx, fr, model_available=True):
